@@ -1278,6 +1278,291 @@ def packer_slots(run: Run):
                                 f"({u}) instead of {want}", {"format": fmt, "stage": "slots"})
 
 
+
+# ---------------------------------------------------------------------------------------------------------------
+# inheritance between payload definitions and the order in which classes are first instantiated
+
+
+INH_FORMATS = ["q", "?", "d", "varlenH", "varlenHutf8", "I", "H", "B", "20s", "varlenI", "arrayH-q", "l", "Q"]
+
+
+def prefix_defn(full: Defn, nfields: int, with_init: bool) -> Defn:
+    """the plain definition of the first `nfields` fields (parent fields ++ own fields of one class of a chain)"""
+    d = Defn()
+    d.uid = next(_uid)
+    d.fields = full.fields[:nfields]
+    d.names = [n for f in d.fields for n in f.names]
+    d.defaults = {n: v for n, v in full.defaults.items() if n in d.names}
+    d.user_init = ("nokw" if with_init and d.defaults else None)
+    d.fp = {n: k for n, k in full.fp.items() if n in d.names}
+    d.fu = {n: k for n, k in full.fu.items() if n in d.names}
+    d.nform = {"I": {}, "C": {}, "D": {}}
+    return d
+
+
+def gen_chain(rng, levels: int, allow_defaults: bool):
+    """flattened definition (prim fields only) and the number of fields each class of the chain adds"""
+    full = Defn()
+    full.uid = next(_uid)
+    pool = [n for n in NAME_POOL if n not in RESERVED]
+    rng.shuffle(pool)
+    cuts = []
+    for lv in range(levels):
+        k = rng.choice([1, 1, 2, 3]) if lv == 0 else rng.choice([0, 1, 1, 2, 2, 3])
+        cuts.append(k)
+    for i in range(sum(cuts)):
+        fmt = rng.choice(INH_FORMATS)
+        ty = NATIVE[fmt] if fmt in NATIVE and rng.random() < 0.6 else "tv:" + fmt
+        full.fields.append(Field("prim", fmt, None, [pool[i]], ty))
+    full.names = [f.names[0] for f in full.fields]
+    for f in full.fields:
+        k = fmt_kind(f.fmt)
+        if k != "other" and rng.random() < 0.15:
+            full.fp[f.names[0]] = k
+        if k != "other" and rng.random() < 0.15:
+            full.fu[f.names[0]] = k
+    if allow_defaults and rng.random() < 0.6 and full.names:
+        nd = rng.randrange(1, len(full.names) + 1)
+        for n in full.names[len(full.names) - nd:]:
+            v = gen_default(rng, full, n)
+            full.defaults[n] = tuple(v) if isinstance(v, list) else v
+    full.nform = {"I": {}, "C": {}, "D": {}}
+    return full, cuts
+
+
+def hooks_ns(full: Defn, names):
+    ns = {}
+    for n in names:
+        if n in full.fp:
+            ns["fix_pack_" + n] = _mk_hook_pack(HOOKS[full.fp[n]][0])
+        if n in full.fu:
+            ns["fix_unpack_" + n] = _mk_hook_unpack(HOOKS[full.fu[n]][1])
+    return ns
+
+
+def against_reference(run: "Run", sig: str, cls, ref, d: Defn, rep: dict, expect_msg_id):
+    """a class that has been instantiated vs the interpreted plain definition `ref` of its flattened field list"""
+    ctx, rng = run.ctx, run.ctx.rng
+    got = ([canon_fmt(x) for x in cls.format_list], list(cls.names))
+    want = ([canon_fmt(x) for x in ref.format_list], list(ref.names))
+    if got != want:
+        ctx.oracle_fail(f"{sig}:definition", f"class-level format_list/names are {got}, the flattened plain definition "
+                        f"has {want}", {**rep, "stage": "inheritance"})
+    wire, api = gen_values(rng, d)
+    n = len(d.names)
+    nd = len(d.defaults)
+    shapes = [(list(d.names), [])]
+    k = rng.randrange(n + 1)
+    rest = d.names[k:]
+    rng.shuffle(rest)
+    shapes.append((list(d.names[:k]), rest))
+    if nd:
+        m = rng.randrange(1, nd + 1)
+        shapes.append((list(d.names[:n - m]), []))
+    objs = None
+    for posn, kwn in shapes:
+        a = attempt(lambda: cls(*[api[x] for x in posn], **{x: api[x] for x in kwn}))
+        b = attempt(lambda: ref(*[api[x] for x in posn], **{x: api[x] for x in kwn}))
+        ra = ("ok", attrs_of(a[1])) if a[0] == "ok" else ("err",)
+        rb = ("ok", attrs_of(b[1])) if b[0] == "ok" else ("err",)
+        ctx.case((sig, "init", len(posn), len(kwn), n), True)
+        if ra != rb:
+            ctx.oracle_fail(f"{sig}:binding", f"constructor positional={posn} keywords={kwn}: {str(a if a[0] == 'err' else ra)[:200]} "
+                            f"but the plain definition gives {str(b if b[0] == 'err' else rb)[:200]}",
+                            {**rep, "stage": "inheritance", "positional": posn, "keywords": kwn})
+        if objs is None and a[0] == "ok" and b[0] == "ok":
+            objs = (a[1], b[1])
+    if objs is None:
+        return
+    oa, ob = objs
+    pa = attempt(lambda: [(t[0], tuple(canon(x) for x in t[1:])) for t in oa.to_pack_list()])
+    pb = attempt(lambda: [(t[0], tuple(canon(x) for x in t[1:])) for t in ob.to_pack_list()])
+    if pa != pb:
+        ctx.oracle_fail(f"{sig}:pack-list", f"to_pack_list {str(pa)[:200]} but the plain definition gives {str(pb)[:200]}",
+                        {**rep, "stage": "inheritance"})
+    ba, bb = attempt(lambda: run.ser.pack_serializable(oa)), attempt(lambda: run.ser.pack_serializable(ob))
+    ctx.count(f"inherit:bytes:{bb[0] if bb[0] == 'ok' else bb[1]}")
+    if ba != bb:
+        ctx.oracle_fail(f"{sig}:bytes", f"bytes {str(ba)[:200]} but the plain definition gives {str(bb)[:200]}",
+                        {**rep, "stage": "inheritance"})
+    if bb[0] == "ok":
+        da = attempt(lambda: run.ser.unpack_serializable(cls, b"\x01" + bb[1], 1))
+        db = attempt(lambda: run.ser.unpack_serializable(ref, b"\x01" + bb[1], 1))
+        ca = ("ok", attrs_of(da[1][0]), da[1][1]) if da[0] == "ok" else ("err",)
+        cb = ("ok", attrs_of(db[1][0]), db[1][1]) if db[0] == "ok" else ("err",)
+        if ca != cb:
+            ctx.oracle_fail(f"{sig}:decoded-fields", f"decoding the plain definition's bytes gives {str(da if da[0] == 'err' else ca)[:200]} "
+                            f"but the plain definition decodes {str(cb)[:200]}", {**rep, "stage": "inheritance",
+                                                                                  "bytes": bb[1].hex()})
+    if expect_msg_id is not None:
+        got_id = (getattr(cls, "msg_id", None), getattr(oa, "msg_id", None))
+        if got_id != (expect_msg_id, expect_msg_id):
+            ctx.oracle_fail(f"{sig}:msg_id", f"msg_id on class/instance is {got_id}, declared {expect_msg_id}",
+                            {**rep, "stage": "inheritance"})
+
+
+def inheritance(run: "Run", n_cases: int):
+    from ipv8.messaging.lazy_payload import VariablePayload, VariablePayloadWID, vp_compile
+    from ipv8.messaging.payload_dataclass import DataClassPayload
+    ctx, rng = run.ctx, run.ctx.rng
+    for case in range(n_cases):
+        if case % 4 != 3:
+            # ---- dataclass chain -------------------------------------------------------------------
+            levels = rng.choice([2, 2, 3])
+            full, cuts = gen_chain(rng, levels, True)
+            base_id = rng.choice([None, None, 5, 77])
+            override = {}
+            for lv in range(1, levels):
+                if base_id is not None and rng.random() < 0.3:
+                    override[lv] = 100 + lv
+            ends = [sum(cuts[:lv + 1]) for lv in range(levels)]
+            defs = [prefix_defn(full, e, True) for e in ends]
+            classes, refs, ids = [], [], []
+            parent = DataClassPayload if base_id is None else DataClassPayload[base_id]
+            cur_id = base_id
+            try:
+                for lv in range(levels):
+                    own = full.fields[ends[lv] - cuts[lv]:ends[lv]]
+                    fields = []
+                    for j, f in enumerate(own):
+                        nm = f.names[0]
+                        ann = annotation_for(full, 0, f, full.uid + j)
+                        fields.append((nm, ann, dataclasses.field(default=full.defaults[nm])) if nm in full.defaults
+                                      else (nm, ann))
+                    ns = hooks_ns(full, [f.names[0] for f in own])
+                    if lv in override:
+                        cur_id = override[lv]
+                        ns["msg_id"] = cur_id
+                    cls = dataclasses.make_dataclass(f"H{full.uid}_{lv}", fields, bases=(parent,), namespace=ns)
+                    cls.__module__ = __name__
+                    classes.append(cls)
+                    ids.append(cur_id)
+                    parent = cls
+                    rns = namespace_for(defs[lv], "I")
+                    rns["format_list"] = [f.fmt for f in defs[lv].fields]
+                    rns["names"] = list(defs[lv].names)
+                    if cur_id is not None:
+                        rns["msg_id"] = cur_id
+                    refs.append(type(f"P{full.uid}_{lv}", (VariablePayloadWID if cur_id is not None else VariablePayload,), rns))
+            except Exception as e:  # noqa: BLE001
+                ctx.count(f"inherit:build-failed:{exc_name(e)}")
+                continue
+            order = rng.choice(["parent-first", "child-first", "interleaved", "only-child", "only-parent", "twice"])
+            evs = {"parent-first": list(range(levels)), "child-first": list(range(levels))[::-1],
+                   "interleaved": [0, levels - 1, 0] + list(range(levels)), "only-child": [levels - 1],
+                   "only-parent": [0], "twice": list(range(levels)) + list(range(levels))}[order]
+            ctx.count(f"inherit:dataclass:{order}:levels={levels}")
+            ctx.count(f"inherit:msg_id:{'override' if override else ('base' if base_id is not None else 'none')}")
+            rep = {"chain": {"definition": defn_replay(full), "cuts": cuts, "events": evs, "order": order,
+                             "base_msg_id": base_id, "msg_id_override": {str(k): v for k, v in override.items()}}}
+            ok = True
+            for lv in evs:
+                _, api = gen_values(rng, defs[lv])
+                r = attempt(lambda: classes[lv](*[api[x] for x in defs[lv].names]))
+                if r[0] != "ok":
+                    ok = False
+                    ctx.oracle_fail("dataclass.inherit:binding", f"instantiating class {lv} of the chain (order {order}) raises "
+                                    f"{r[1]}; the plain definition of its flattened field list accepts the call",
+                                    {**rep, "stage": "inheritance"})
+            done = set(evs)
+            # model: class-level data of every class in this state
+            tys = "/".join("[" + ",".join(f.ty for f in full.fields[ends[lv] - cuts[lv]:ends[lv]]) + "]" for lv in range(levels))
+            nms = "/".join("[" + ",".join(f.names[0] for f in full.fields[ends[lv] - cuts[lv]:ends[lv]]) + "]"
+                           for lv in range(levels))
+            real = "ok " + " ".join(f"{lv}:" + ",".join(canon_fmt(x) for x in classes[lv].format_list) + ";"
+                                    + ",".join(classes[lv].names) for lv in range(levels))
+            run.ask(f"hier {tys} {nms} [{','.join(map(str, evs))}]", lambda rp: rp, real,
+                    "class-level format_list/names along an inheritance chain", rep)
+            for lv in range(levels):
+                if lv in done:
+                    if ok:
+                        against_reference(run, "dataclass.inherit", classes[lv], refs[lv], defs[lv], {**rep, "class": lv}, ids[lv])
+                else:
+                    # a class of the chain that was never instantiated: the known decode-before-first-instance case
+                    _, api = gen_values(rng, defs[lv])
+                    ob = attempt(lambda: refs[lv](*[api[x] for x in defs[lv].names]))
+                    bb = attempt(lambda: run.ser.pack_serializable(ob[1])) if ob[0] == "ok" else ("err", "x")
+                    if bb[0] != "ok":
+                        continue
+                    da = attempt(lambda: run.ser.unpack_serializable(classes[lv], bb[1]))
+                    db = attempt(lambda: run.ser.unpack_serializable(refs[lv], bb[1]))
+                    ca = ("ok", attrs_of(da[1][0]), da[1][1]) if da[0] == "ok" else ("err",)
+                    cb = ("ok", attrs_of(db[1][0]), db[1][1]) if db[0] == "ok" else ("err",)
+                    ctx.count(f"inherit:decode-before-instance:{'same' if ca == cb else 'differs'}")
+                    ctx.case(("inherit-decode-first", order, lv), True)
+                    if ca != cb:
+                        ctx.oracle_fail("DataClassPayload:decode-before-first-instance",
+                                        f"class {lv} of a dataclass chain, never instantiated (instantiated: {sorted(done)}), decodes "
+                                        f"to {str(da if da[0] == 'err' else ca)[:160]}; the plain definition gives {str(cb)[:160]}",
+                                        {**rep, "stage": "inheritance-decode-first", "class": lv})
+                    # decoding must not have disturbed the classes that were instantiated
+            for lv in sorted(done):
+                if ok and rng.random() < 0.5:
+                    against_reference(run, "dataclass.inherit", classes[lv], refs[lv], defs[lv], {**rep, "class": lv, "second_pass": True}, ids[lv])
+        else:
+            # ---- VariablePayload from VariablePayload ---------------------------------------------
+            full, cuts = gen_chain(rng, 2, False)
+            pform, cform = rng.choice([("I", "I"), ("I", "C"), ("C", "C"), ("C", "I"), ("C", "I")])
+            if pform == "C" and cform == "I" and rng.random() < 0.5:
+                cuts = [cuts[0] + cuts[1], 0]       # same field list: must behave like the plain definition
+            ends = [cuts[0], cuts[0] + cuts[1]]
+            defs = [prefix_defn(full, e, False) for e in ends]
+            pid = rng.choice([None, 9])
+            cid = (rng.choice([pid, 10]) if pid is not None else None)
+            try:
+                pns = hooks_ns(full, defs[0].names)
+                pns.update({"format_list": [f.fmt for f in defs[0].fields], "names": list(defs[0].names)})
+                if pid is not None:
+                    pns["msg_id"] = pid
+                pcls = type(f"VP{full.uid}", (VariablePayloadWID if pid is not None else VariablePayload,), pns)
+                if pform == "C":
+                    pcls = vp_compile(pcls)
+                cns = hooks_ns(full, defs[1].names[ends[0]:])
+                if cuts[1]:
+                    cns.update({"format_list": [*pcls.format_list, *[f.fmt for f in defs[1].fields[ends[0]:]]],
+                                "names": [*pcls.names, *defs[1].names[ends[0]:]]})
+                if cid is not None and cid != pid:
+                    cns["msg_id"] = cid
+                ccls = type(f"VC{full.uid}", (pcls,), cns)
+                if cform == "C":
+                    ccls = vp_compile(ccls)
+                refs = []
+                for lv, mid in ((0, pid), (1, cid)):
+                    rns = namespace_for(defs[lv], "I")
+                    rns.update({"format_list": [f.fmt for f in defs[lv].fields], "names": list(defs[lv].names)})
+                    if mid is not None:
+                        rns["msg_id"] = mid
+                    refs.append(type(f"VR{full.uid}_{lv}", (VariablePayloadWID if mid is not None else VariablePayload,), rns))
+            except Exception as e:  # noqa: BLE001
+                ctx.count(f"inherit:build-failed:{exc_name(e)}")
+                continue
+            ctx.count(f"inherit:variablepayload:{cform}-from-{pform}:extra={min(cuts[1], 1)}")
+            rep = {"vp_chain": {"definition": defn_replay(full), "cuts": cuts, "parent_form": pform, "child_form": cform,
+                                "msg_ids": [pid, cid]}}
+            hybrid = pform == "C" and cform == "I" and (cuts[1] > 0 or any(n in full.fp or n in full.fu for n in defs[1].names[ends[0]:]))
+            sig = "vp_compile:uncompiled-subclass-of-compiled" if hybrid else "variablepayload.inherit"
+            first = rng.choice([0, 1])
+            for lv in ([0, 1] if first == 0 else [1, 0]):
+                if hybrid and lv == 1:
+                    before = len(ctx.failures)
+                    against_reference(run, "hybrid", ccls, refs[1], defs[1], {**rep, "class": 1}, cid)
+                    bad = ctx.failures[before:]
+                    del ctx.failures[before:]
+                    ctx.count(f"inherit:hybrid:{'differs' if bad else 'same'}")
+                    if bad:
+                        ctx.oracle_fail(sig, "an uncompiled subclass that extends a vp_compile'd class inherits the parent's "
+                                        "generated __init__/to_pack_list/from_unpack_list: " + bad[0]["what"][:200],
+                                        {**rep, "stage": "inheritance"})
+                else:
+                    against_reference(run, sig, [pcls, ccls][lv], refs[lv], defs[lv], {**rep, "class": lv}, [pid, cid][lv])
+            if cform == "C":
+                gs = gen_structure(ccls, defs[1])
+                if gs is not None:
+                    run.ask(" ".join(["gen", "C"] + defn_tokens(defs[1], "C") + ["[]", "[]"]), lambda rp: rp, gs,
+                            "generated code of a compiled subclass", rep)
+    run.flush()
+
+
 # ---------------------------------------------------------------------------------------------------------------
 
 
@@ -1320,6 +1605,7 @@ def run_all(ctx: Ctx, n_defs: int, use_model: bool, small_n: int, per_shipped: i
     small_scope(r, small_n)
     shipped(r, per_shipped)
     decode_first(r, ctx.scale(30, 300))
+    inheritance(r, ctx.scale(120, 1500))
     for i in range(n_defs):
         d = gen_defn(ctx.rng, r.formats)
         checked(r, d)
@@ -1363,6 +1649,7 @@ def search(ctx: Ctx, reason: str):
     type_map_queries(r)
     small_scope(r, 3)
     shipped(r, 10)
+    inheritance(r, 400)
     for _ in range(1500):
         checked(r, gen_defn(ctx.rng, r.formats))
 
@@ -1408,6 +1695,13 @@ def replay(ctx: Ctx, rec: dict):
         if not ok:
             ctx.oracle_fail("DataClassPayload:decode-before-first-instance", "replayed input still fails", r)
         ctx.case(("replay",), True)
+    elif "chain" in r or "vp_chain" in r:
+        # inheritance cases depend on the order of class creation/instantiation: re-run the whole family from this seed
+        ctx.rng.seed(rec.get("seed", 0))
+        inheritance(run_, 300)
+        sigs = sorted({f["signature"] for f in ctx.failures})
+        print(f"replay: re-ran 300 inheritance / instantiation-order cases: {len(ctx.failures)} oracle failure(s) {sigs}; "
+              f"recorded case: {json.dumps(r.get('chain') or r.get('vp_chain'))[:400]}")
     else:
         run_all(ctx, 50, False, 2, 2)
         print(f"replay: re-ran the structured checks: {len(ctx.failures)} oracle failure(s)")
